@@ -7,6 +7,7 @@ mod field;
 mod strip;
 mod analyze;
 mod defpasses;
+mod isolate;
 
 pub fn with_catch<F: FnOnce() -> String + panic::UnwindSafe>(f: F) -> String {
     match panic::catch_unwind(f) {
@@ -58,6 +59,14 @@ fn main() {
             for line in stdin.lock().lines() {
                 let line = line.unwrap();
                 let reply = with_catch(move || analyze::handle(&line));
+                writeln!(out, "{}", reply).unwrap();
+                out.flush().unwrap();
+            }
+        }
+        "isolate" => {
+            for line in stdin.lock().lines() {
+                let line = line.unwrap();
+                let reply = with_catch(move || isolate::handle(&line));
                 writeln!(out, "{}", reply).unwrap();
                 out.flush().unwrap();
             }
